@@ -19,7 +19,7 @@ from sim import core
 from sim.props import SPECS
 
 EVIDENCE_DIR = os.path.join(core.VERIF_DIR, "evidence")
-REPLAY_DIR = os.path.join(core.VERIF_DIR, "replays")
+REPLAY_DIR = os.environ.get("VERIF_REPLAY_DIR") or os.path.join(core.VERIF_DIR, "replays")
 KNOWN_FILE = os.path.join(core.VERIF_DIR, "known_findings.json")
 
 
@@ -263,7 +263,8 @@ def finish(prop, tier, seed, spec, lines, dones, det, harness_errors, wall, nw):
         known_hits={k: len(v) for k, v in known_hits.items()},
         harness_errors=harness_errors,
     )
-    evidence.write(prop, ev)
+    if not os.environ.get("VERIF_NO_EVIDENCE"):
+        evidence.write(prop, ev)
 
     print(
         f"[{prop}/{tier}] seed={seed} runs={len(runs)} nontrivial={n_nontrivial} distinct={len(sigs)} "
